@@ -65,7 +65,7 @@ func crossv(u, v [3]int64) [3]int64 {
 var halves = []int64{-2, -1, 0, 1, 2, 3, 4} // parameter * 2 : -1, -1/2, 0, 1/2, 1, 3/2, 2
 
 func genSegSeg(t *rapid.T, three bool) (string, [][3]int64) {
-	class := rapid.SampledFrom([]string{"constructed", "constructed", "small-grid", "big-grid", "parallel", "collinear", "degenerate", "touching", "near-parallel-long", "collinear-decimal", "collinear-decimal"}).Draw(t, "class")
+	class := rapid.SampledFrom([]string{"constructed", "constructed", "small-grid", "big-grid", "parallel", "collinear", "degenerate", "touching", "near-parallel-long", "collinear-decimal", "collinear-decimal", "long-and-short"}).Draw(t, "class")
 	k := uint(rapid.IntRange(1, 20).Draw(t, "k"))
 	lim := int64(1) << k
 	flat := func(p [3]int64) [3]int64 {
@@ -124,6 +124,27 @@ func genSegSeg(t *rapid.T, three bool) (string, [][3]int64) {
 		return class, [][3]int64{flat(pt(t, l, "a")), flat(pt(t, l, "b")), flat(pt(t, l, "c")), flat(pt(t, l, "d"))}
 	case "big-grid":
 		return class, [][3]int64{flat(pt(t, lim, "a")), flat(pt(t, lim, "b")), flat(pt(t, lim, "c")), flat(pt(t, lim, "d"))}
+	case "long-and-short":
+		// a segment of 2^27..2^30 units through a point o and a stroke of a few units at o
+		// (touching it, crossing it, beside it): their lengths differ by seven to nine
+		// orders of magnitude, their squares by twice as many - and the stroke is a
+		// segment still, its far end as good as its near one
+		o := flat(pt(t, 1<<10, "o"))
+		u := flat(pt(t, 3, "u"))
+		if u == ([3]int64{}) {
+			u[0] = 1
+		}
+		kk := int64(1) << uint(rapid.IntRange(26, 29).Draw(t, "longk"))
+		a, b := addk(o, -kk+rapid.Int64Range(0, 1000).Draw(t, "ja"), u), addk(o, kk, u)
+		w1, w2 := flat(pt(t, 4, "w1")), flat(pt(t, 4, "w2"))
+		if w1 == w2 {
+			w2[1] += 4
+		}
+		c, d := addk(o, 1, w1), addk(o, 1, w2)
+		if rapid.Bool().Draw(t, "shortfirst") {
+			return class, [][3]int64{c, d, a, b}
+		}
+		return class, [][3]int64{a, b, c, d}
 	case "collinear-decimal":
 		// two pieces of one oblique line near the origin, apart, touching or overlapping;
 		// genCase divides every ordinate by ten, three, ... : as decimals the four points
